@@ -345,6 +345,21 @@ def main(tier, seed, replay=None):
         if ref_files[0] == "ok":
             for fmt in GRAPH_FORMATS + ["human", "table"]:
                 cli_jobs.append(({"sg": rdflib.Graph().parse(data=based_shapes, format="turtle"), "data": based_data}, ref_files, fmt, ["-s", bs_path, "-f", fmt, bd_path], {}))
+        # a DATA document that states its base in a '# baseURI:' header (or @base) and names its nodes by relative IRIs: the command line
+        # (which opens the file itself) and the API (given the path) must read the same graph
+        for hdr_i, hdr in enumerate(("# baseURI: http://ex.org/\n", "@base <http://ex.org/> .\n", "# baseURI: http://ex.org/\n# prefix: ex\n")):
+            rd_text = hdr + "@prefix ex: <http://ex.org/> .\n<n0> a ex:T ; ex:p <n1> , \"lit\" .\n<n1> a ex:T .\n<sub/n2> a ex:T ; ex:p 5 .\n"
+            rs_text = ("@prefix sh: <http://www.w3.org/ns/shacl#> . @prefix ex: <http://ex.org/> .\n"
+                       "ex:RS a sh:NodeShape ; sh:targetNode ex:n0 , <http://ex.org/sub/n2> , ex:absent ; sh:class ex:T ; sh:property [ sh:path ex:p ; sh:nodeKind sh:IRI ; sh:minCount 1 ] .\n")
+            rd_path, rs_path = os.path.join(d, "rel_data%d.ttl" % hdr_i), os.path.join(d, "rel_shapes%d.ttl" % hdr_i)
+            open(rd_path, "w").write(rd_text)
+            open(rs_path, "w").write(rs_text)
+            ref_rel = S.run_validate(rd_path, rs_path)
+            if ref_rel[0] == "ok":
+                stats["based_data_cli_cases"] = stats.get("based_data_cli_cases", 0) + 1
+                rel_case = {"sg": rdflib.Graph().parse(data=rs_text, format="turtle"), "data": rdflib.Graph().parse(data=rd_text, format="turtle", publicID="http://ex.org/")}
+                for fmt in GRAPH_FORMATS + ["human", "table"]:
+                    cli_jobs.append((rel_case, ref_rel, fmt, ["-s", rs_path, "-f", fmt, rd_path], {}))
         with ThreadPoolExecutor(max_workers=12) as ex:
             outs = list(ex.map(lambda job: c16.cli_run(job[3]), cli_jobs))
         for (c, ref, fmt, args, opts), (code, out, err) in zip(cli_jobs, outs):
@@ -418,7 +433,7 @@ def main(tier, seed, replay=None):
         "distinct_nontrivial": stats["api_roundtrips"] + stats["cli_runs"],
         "rule": "(1) Tie A: cli.main() in-process with validate() replaced by a recorder, 21 flag sets and every pair of 11 independent flags (both orders for a third of them): every keyword received is in the generated table, and the values of max-depth/inference/abort/allow/advanced/iterate/meta/focus/format arrive unchanged; "
                 "(2) API: reports of random cases (all literal kinds and language tags, blank-node value nodes, complex paths, sh:detail nesting) x turtle/xml/json-ld/nt/n3: the returned bytes parse back to the same verdict and result keys, and (except JSON-LD) to a graph isomorphic to the report graph; "
-                "(2b) shapes documents stating a base IRI ('# baseURI:' header, @base, own file) with report IRIs under and next to the base, all five formats; (2c) values and messages with line breaks, blanks before line breaks, U+2028 / U+0085 / CR LF through the command line; (3) CLI: `python -m pyshacl -f fmt` on the same files for the five graph formats + human + table: parsed output = API report (isomorphic / verdict and result count), exit status 0 iff conforms",
+                "(2b) shapes documents stating a base IRI ('# baseURI:' header, @base, own file) with report IRIs under and next to the base, all five formats; (2b') data documents with a '# baseURI:' header / @base and relative IRIs through the command line and the API; (2c) values and messages with line breaks, blanks before line breaks, U+2028 / U+0085 / CR LF through the command line; (3) CLI: `python -m pyshacl -f fmt` on the same files for the five graph formats + human + table: parsed output = API report (isomorphic / verdict and result count), exit status 0 iff conforms",
         "distribution": dict(stats, option_cases=len(bodies), differences=len(diffs), option_value_errors=len(opt_bad), table_disagreements=len(failed)),
         "samples": meta[:1],
         "exhaustive": False,
